@@ -44,16 +44,16 @@ namespace Impl
 /-- `SRP.hash(data...)`: SHA-256 of the concatenation. -/
 def hash (S : SrpPrims) (parts : List Bytes) : Bytes := S.sha256 parts.flatten
 
-/-- `SRP.saltHash`: `H(salt | data | salt)`. -/
-def saltHash (S : SrpPrims) (data salt : Bytes) : Bytes := hash S [salt, data, salt]
+/-- `SRP.saltHash`, **translated** from the source (`Facts.C15.saltHashT`). -/
+def saltHash (S : SrpPrims) (data salt : Bytes) : Bytes := Facts.C15.saltHashT (hash S) S.pbkdf2 data salt
 
-/-- `SRP.primary`: `PH1 = SH(SH(password, salt1), salt2)`. -/
+/-- `SRP.primary` (PH1), **translated** from the source. -/
 def primary (S : SrpPrims) (password salt1 salt2 : Bytes) : Bytes :=
-  saltHash S (saltHash S password salt1) salt2
+  Facts.C15.primaryT (hash S) S.pbkdf2 password salt1 salt2
 
-/-- `SRP.secondary`: `PH2 = SH(pbkdf2(sha512, PH1, salt1, 100000), salt2)`. -/
+/-- `SRP.secondary` (PH2), **translated** from the source (incl. the iteration count and key length). -/
 def secondary (S : SrpPrims) (password salt1 salt2 : Bytes) : Bytes :=
-  saltHash S (S.pbkdf2 (primary S password salt1 salt2) salt1 Facts.C15.pbkdf2Iters Facts.C15.pbkdf2KeyLen) salt2
+  Facts.C15.secondaryT (hash S) S.pbkdf2 password salt1 salt2
 
 /-- `SRP.pad256`: last 256 bytes, or left-padded with zeros to 256 bytes. -/
 def pad256 (b : Bytes) : Bytes :=
@@ -65,7 +65,40 @@ def pad256FromBig (n : Nat) : Option Bytes := if n ≥ 256 ^ 256 then none else 
 /-- `xor32`. -/
 def xor32 (a b : Bytes) : Bytes := Ige.xorB a b
 
-/-- `SRP.Hash(password, srpB, random, i)`; returns `(A, M1)`. -/
+/-- `(*big.Int).Bytes()` of a value held as 256 padded bytes: minimal big-endian form. -/
+def minimal (b : Bytes) : Bytes := b.dropWhile (· == 0)
+
+/-- The named byte strings of `SRP.Hash` at some point of its execution (not yet computed = `[]`). -/
+structure Vals where
+  ga : Bytes := []
+  gb : Bytes := []
+  srpB : Bytes := []
+  iP : Bytes := []
+  gBytes : Bytes := []
+  salt1 : Bytes := []
+  salt2 : Bytes := []
+  sa : Bytes := []
+  ka : Bytes := []
+  xorHpHg : Bytes := []
+  password : Bytes := []
+  random : Bytes := []
+
+def Vals.get (w : Vals) : Facts.C15.Val → Bytes
+  | .ga => w.ga | .gb => w.gb | .srpB => w.srpB | .iP => w.iP | .gBytes => w.gBytes
+  | .salt1 => w.salt1 | .salt2 => w.salt2 | .sa => w.sa | .saMin => minimal w.sa | .ka => w.ka
+  | .xorHpHg => w.xorHpHg | .password => w.password | .random => w.random
+
+/-- evaluation of a regenerated hash operand. -/
+def Vals.opnd (S : SrpPrims) (w : Vals) : Facts.C15.Opnd → Bytes
+  | .val v => w.get v
+  | .hashed v => S.sha256 (w.get v)
+  | .unknown _ => []
+
+def Vals.opnds (S : SrpPrims) (w : Vals) (os : List Facts.C15.Opnd) : List Bytes := os.map (w.opnd S)
+
+/-- `SRP.Hash(password, srpB, random, i)`; returns `(A, M1)`.  Which byte strings enter `g_b`, `u`,
+`x`, `k`, `t`, `k_a`, `H(p) xor H(g)` and `M1`, and in which order, is **regenerated**
+(`Facts.C15.gbSource … m1Operands`) and interpreted here. -/
 def srpHash (S : SrpPrims) (isPrime : Int → Bool) (password srpB random : Bytes) (i : Input) :
     Except Err (Bytes × Bytes) :=
   let p := beNat i.p
@@ -74,23 +107,32 @@ def srpHash (S : SrpPrims) (isPrime : Int → Bool) (password srpB random : Byte
     let g := i.g.toNat
     let gBytes := beBytes 256 g
     let a := beNat random
+    let w0 : Vals := { srpB := srpB, iP := i.p, gBytes := gBytes, salt1 := i.salt1, salt2 := i.salt2,
+                       password := password, random := random }
     match pad256FromBig (S.powMod g a p) with
     | none => .error .gaTooBig
     | some ga =>
-      let gb := pad256 srpB
-      let u := beNat (hash S [ga, gb])
-      let x := beNat (secondary S password i.salt1 i.salt2)
+      let gb := pad256 (w0.opnd S Facts.C15.gbSource)
+      let w1 : Vals := { w0 with ga := ga, gb := gb }
+      let u := beNat (hash S (w1.opnds S Facts.C15.uOperands))
+      let x := match w1.opnds S Facts.C15.xvOperands with
+        | [pw, s1, s2] => beNat (secondary S pw s1 s2)
+        | _ => 0
       let v := S.powMod g x p
-      let k := beNat (hash S [i.p, gBytes])
+      let k := beNat (hash S (w1.opnds S Facts.C15.kOperands))
       let kv := (k * v) % p
-      let t0 := beNat srpB
+      let t0 := beNat (w1.opnd S Facts.C15.tSource)
       let t := if t0 < kv then t0 + p - kv else t0 - kv
       match pad256FromBig (S.powMod t (u * x + a) p) with
       | none => .error .saTooBig
       | some sa =>
-        let ka := S.sha256 sa
-        let xorHpHg := xor32 (S.sha256 i.p) (S.sha256 gBytes)
-        let m1 := hash S [xorHpHg, hash S [i.salt1], hash S [i.salt2], ga, gb, ka]
+        let w2 : Vals := { w1 with sa := sa }
+        let ka := S.sha256 (w2.opnd S Facts.C15.kaOperand)
+        let xorHpHg := match w2.opnds S Facts.C15.xorOperands with
+          | [hp, hg] => xor32 hp hg
+          | _ => []
+        let w3 : Vals := { w2 with ka := ka, xorHpHg := xorHpHg }
+        let m1 := hash S (w3.opnds S Facts.C15.m1Operands)
         .ok (ga, m1)
 
 end Impl
